@@ -10,14 +10,16 @@ EXTENDS RefTerm, TLC, Json, IOUtils
 
 Trace == ndJsonDeserialize(IOEnv.TRACE)
 
-VARIABLES l, t, failed
-vars == <<l, t, failed>>
+VARIABLES l, t, failed,
+          fo        \* has something else written to the terminal since the last frame ("foreign")?
+vars == <<l, t, failed, fo>>
 
-Init == l = 1 /\ t = InitTerm(1, 1, FALSE) /\ failed = FALSE
+Init == l = 1 /\ t = InitTerm(1, 1, FALSE) /\ failed = FALSE /\ fo = FALSE
 
 Next ==
   /\ l <= Len(Trace)
   /\ l' = l + 1
+  /\ fo' = (Trace[l].ev = "foreign" \/ (fo /\ Trace[l].ev \notin {"frame", "reset"}))
   /\ LET e == Trace[l] IN
      IF e.ev = "reset" THEN
         /\ t' = InitTerm(e.rows, e.cols, e.xw)
@@ -27,7 +29,8 @@ Next ==
         /\ UNCHANGED t
         /\ IF FrameOK(t, e) THEN UNCHANGED failed
            ELSE /\ failed' = TRUE
-                /\ PrintT("REJECT " \o ToJson([scn |-> e.scn, line |-> l, why |-> FrameWhy(t, e), bad |-> FirstBad(t, e)]))
+                /\ PrintT("REJECT " \o ToJson([scn |-> e.scn, line |-> l, why |-> FrameWhy(t, e), bad |-> FirstBad(t, e),
+                                                      cur |-> CursorWhy(t, e.cur) \o (IF fo THEN ":after-foreign-output" ELSE "")]))
      ELSE
         /\ t' = Step(t, e)
         /\ UNCHANGED failed
